@@ -562,6 +562,15 @@ static inline int same_waiting_query(int userid, struct query *q,
 	return !strcmp(q->name, held->name);
 }
 
+/* The answer to *held will also go to its duplicate *q, spelled as in *q. */
+static inline void remember_duplicate(struct query *held, struct query *q)
+{
+	held->id2 = q->id;
+	held->fromlen2 = q->fromlen;
+	memcpy(&(held->from2), &(q->from), q->fromlen);
+	memcpy(held->name2, q->name, sizeof(held->name2));
+}
+
 /* Sends current fragment to user, or dataless packet if there is no
    current fragment available (-> normal "quiet" ping reply).
    Does not update anything, except:
@@ -619,12 +628,17 @@ static int send_chunk_or_dataless(int dns_fd, int userid, struct query *q)
 	write_dns(dns_fd, q, pkt, datalen + 2, users[userid].downenc);
 
 	if (q->id2 != 0) {
+		char name[QUERY_NAME_SIZE];
+
 		q->id = q->id2;
 		q->fromlen = q->fromlen2;
 		memcpy(&(q->from), &(q->from2), q->fromlen2);
+		memcpy(name, q->name, sizeof(name));
+		memcpy(q->name, q->name2, sizeof(q->name));
 		if (debug >= 1)
 			fprintf(stderr, "OUT  again to last duplicate\n");
 		write_dns(dns_fd, q, pkt, datalen + 2, users[userid].downenc);
+		memcpy(q->name, name, sizeof(q->name));
 	}
 
 	save_to_qmem_pingordata(userid, q);
@@ -1250,9 +1264,7 @@ handle_null_request(int tun_fd, int dns_fd, struct dnsfd *dns_fds, struct query 
 				fprintf(stderr, "PING pkt from user %d = dupe from impatient DNS server, remembering\n",
 					userid);
 			}
-			users[userid].q.id2 = q->id;
-			users[userid].q.fromlen2 = q->fromlen;
-			memcpy(&(users[userid].q.from2), &(q->from), q->fromlen);
+			remember_duplicate(&users[userid].q, q);
 			return;
 		}
 
@@ -1264,10 +1276,7 @@ handle_null_request(int tun_fd, int dns_fd, struct dnsfd *dns_fds, struct query 
 				fprintf(stderr, "PING pkt from user %d = dupe from impatient DNS server, remembering\n",
 					userid);
 			}
-			users[userid].q_sendrealsoon.id2 = q->id;
-			users[userid].q_sendrealsoon.fromlen2 = q->fromlen;
-			memcpy(&(users[userid].q_sendrealsoon.from2),
-			       &(q->from), q->fromlen);
+			remember_duplicate(&users[userid].q_sendrealsoon, q);
 			return;
 		}
 
@@ -1380,9 +1389,7 @@ handle_null_request(int tun_fd, int dns_fd, struct dnsfd *dns_fds, struct query 
 				fprintf(stderr, "IN   pkt from user %d = dupe from impatient DNS server, remembering\n",
 					userid);
 			}
-			users[userid].q.id2 = q->id;
-			users[userid].q.fromlen2 = q->fromlen;
-			memcpy(&(users[userid].q.from2), &(q->from), q->fromlen);
+			remember_duplicate(&users[userid].q, q);
 			return;
 		}
 
@@ -1394,10 +1401,7 @@ handle_null_request(int tun_fd, int dns_fd, struct dnsfd *dns_fds, struct query 
 				fprintf(stderr, "IN   pkt from user %d = dupe from impatient DNS server, remembering\n",
 					userid);
 			}
-			users[userid].q_sendrealsoon.id2 = q->id;
-			users[userid].q_sendrealsoon.fromlen2 = q->fromlen;
-			memcpy(&(users[userid].q_sendrealsoon.from2),
-			       &(q->from), q->fromlen);
+			remember_duplicate(&users[userid].q_sendrealsoon, q);
 			return;
 		}
 
